@@ -49,7 +49,7 @@ func c15Width(s string) int {
 
 func c15AllTabs(s string) bool { return s != "" && strings.Trim(s, "\t") == "" }
 
-func hxs(ss []string) []string {
+func c15hxs(ss []string) []string {
 	out := make([]string, len(ss))
 	for i, s := range ss {
 		out[i] = hx(s)
@@ -304,7 +304,7 @@ func c15SecondAlign(lines []string) ([]string, []string, []pkglint.VerifLayoutLi
 // alignFragment runs the real VaralignBlock over the fragment, evaluates the
 // property on the result and queues the model request.
 func (c *c15Checker) alignFragment(lines []string, source string) {
-	replay := map[string]any{"kind": "align", "lines": hxs(lines), "source": source}
+	replay := map[string]any{"kind": "align", "lines": c15hxs(lines), "source": source}
 	c.res.Evaluations++
 	r1 := pkglint.VerifVaralign(lines, "align")
 	if r1.Panicked != "" {
@@ -324,7 +324,7 @@ func (c *c15Checker) alignFragment(lines []string, source string) {
 	}
 	if !wf {
 		c.viol("C15/correspondence/splitter-blanks", fmt.Sprintf("VaralignSplitter returned a non-blank spaceBeforeValue/spaceAfterValue for %q", lines),
-			false, c15Size(lines), map[string]any{"kind": "align", "lines": hxs(lines), "broken": "assumption: the splitter's space parts are blank"})
+			false, c15Size(lines), map[string]any{"kind": "align", "lines": c15hxs(lines), "broken": "assumption: the splitter's space parts are blank"})
 		return
 	}
 	r2 := pkglint.VerifVaralign(r1.Lines, "describe")
@@ -404,7 +404,7 @@ func (c *c15Checker) flushModel() {
 		c.res.TracesValidated++
 		if !same && !c.reqBad[i] {
 			c.viol("C15/correspondence/varalign", fmt.Sprintf("model and VaralignBlock disagree on %q: real %q (%d actions), model %q (%s)", c.reqIn[i], implLines, c.reqActs[i], modelLines, a[:imin(len(a), 12)]),
-				false, c15Size(c.reqIn[i]), map[string]any{"kind": "align", "lines": hxs(c.reqIn[i]), "broken": "correspondence VaralignBlock.Finish = Model.Varalign.process_file"})
+				false, c15Size(c.reqIn[i]), map[string]any{"kind": "align", "lines": c15hxs(c.reqIn[i]), "broken": "correspondence VaralignBlock.Finish = Model.Varalign.process_file"})
 		}
 	}
 	c.reqs, c.reqImpl, c.reqIn, c.reqActs, c.reqBad = nil, nil, nil, nil, nil
@@ -848,7 +848,7 @@ func (c *c15Checker) compare(kind string, lines []string, replay map[string]any,
 }
 
 func (c *c15Checker) trimCase(lines []string) {
-	replay := map[string]any{"kind": "trim", "lines": hxs(lines)}
+	replay := map[string]any{"kind": "trim", "lines": c15hxs(lines)}
 	r1, good := c.simpleFix("trim", lines, replay, func(ls []string) pkglint.VerifLayoutResult { return pkglint.VerifVaralign(ls, "trim") }, true)
 	if !good {
 		return
@@ -864,7 +864,7 @@ func (c *c15Checker) trimCase(lines []string) {
 	}
 	var reqs []string
 	for _, l := range r1.Before { // the model works per logical line
-		reqs = append(reqs, "trim "+strconv.Itoa(len(l.Raw))+" "+strings.Join(hxs(l.Raw), " "))
+		reqs = append(reqs, "trim "+strconv.Itoa(len(l.Raw))+" "+strings.Join(c15hxs(l.Raw), " "))
 	}
 	c.later(reqs, func(ans []string) {
 		var want []string
@@ -877,7 +877,7 @@ func (c *c15Checker) trimCase(lines []string) {
 }
 
 func (c *c15Checker) shellCase(lines []string) {
-	replay := map[string]any{"kind": "shell", "lines": hxs(lines)}
+	replay := map[string]any{"kind": "shell", "lines": c15hxs(lines)}
 	r1, good := c.simpleFix("shell", lines, replay, func(ls []string) pkglint.VerifLayoutResult { return pkglint.VerifVaralign(ls, "shell") }, true)
 	if !good {
 		return
@@ -889,7 +889,7 @@ func (c *c15Checker) shellCase(lines []string) {
 			if strings.HasPrefix(l.Raw[0], "\t\t") {
 				flag = "1"
 			}
-			reqs = append(reqs, "shell "+flag+" "+strconv.Itoa(len(l.Raw))+" "+strings.Join(hxs(l.Raw), " "))
+			reqs = append(reqs, "shell "+flag+" "+strconv.Itoa(len(l.Raw))+" "+strings.Join(c15hxs(l.Raw), " "))
 		}
 	}
 	c.later(reqs, func(ans []string) {
@@ -909,7 +909,7 @@ func (c *c15Checker) shellCase(lines []string) {
 }
 
 func (c *c15Checker) dirCase(lines []string, depths []int) {
-	replay := map[string]any{"kind": "dir", "lines": hxs(lines), "depths": depths}
+	replay := map[string]any{"kind": "dir", "lines": c15hxs(lines), "depths": depths}
 	r1, good := c.simpleFix("dir", lines, replay, func(ls []string) pkglint.VerifLayoutResult { return pkglint.VerifDirectiveIndent(ls, depths) }, true)
 	if !good {
 		return
@@ -955,7 +955,7 @@ func (c *c15Checker) dirCase(lines []string, depths []int) {
 
 // fixSpaceAfterVarname runs inside the parser: mode "parse"
 func (c *c15Checker) savCase(lines []string, varname, space, op string) {
-	replay := map[string]any{"kind": "sav", "lines": hxs(lines), "varname": hx(varname), "space": hx(space), "op": hx(op)}
+	replay := map[string]any{"kind": "sav", "lines": c15hxs(lines), "varname": hx(varname), "space": hx(space), "op": hx(op)}
 	r1, _ := c.simpleFix("sav", lines, replay, func(ls []string) pkglint.VerifLayoutResult { return pkglint.VerifVaralign(ls, "parse") }, false)
 	if r1.Panicked != "" {
 		return
@@ -966,7 +966,7 @@ func (c *c15Checker) savCase(lines []string, varname, space, op string) {
 		return
 	}
 	p := pb.Before[0].Parts[0]
-	req := "sav " + strconv.Itoa(len(lines)) + " " + strings.Join(hxs(lines), " ") + " " + hx(varname) + " " + hx(space) + " " + hx(op) + " " + strings.Join(hxs(p[:]), " ")
+	req := "sav " + strconv.Itoa(len(lines)) + " " + strings.Join(c15hxs(lines), " ") + " " + hx(varname) + " " + hx(space) + " " + hx(op) + " " + strings.Join(c15hxs(p[:]), " ")
 	c.later([]string{req}, func(ans []string) {
 		want, _ := okLines(ans[0])
 		// the model is faithful to the code, including the known defect
